@@ -6,7 +6,7 @@ import numpy as np
 from . import common, cons, hand, hist, place, universe, xt
 
 PID = "C03"
-FORMS = ["py", "nd", "ndF", "ndS", "cap", "xobj-other", "xobj-ctx", "xobj-nested"]
+FORMS = ["py", "nd", "ndF", "ndS", "cap", "xobj-other", "xobj-ctx", "xobj-nested", "xobj-slack"]
 PL = ["dirtyhole", "dirtyhole2", "hole", "explicit", "ba-hole", "grown", "al64"]
 
 
@@ -175,7 +175,7 @@ def places_for(tier):
     def f(t, form):
         if form == "py":
             return PL if (tier == "thorough" or xt.depth(t) <= 1) else ["dirtyhole", "dirtyhole2", "grown"]
-        if form == "cap":
+        if form in ("cap", "xobj-slack"):
             return ["dirtybig", "dirtybig2"]
         return ["dirtyhole", "dirtyhole2"]
 
